@@ -19,9 +19,9 @@ func init() { register("C18", propC18) }
 const kBinarySearch = "internal/model/core.binarySearch"
 
 func propC18(p *Prog, r *Report) {
-	r.Rule("C18.a", "single-step decision table of binarySearch: with n the probed index, for every ordering of arr[n].Seq and arr[n+1].Seq against the probe and for n last / not last, the loop body (evaluated abstractly; elements are touched only through comparisons) returns arr[n] iff arr[n] is before the probe and (n is last or arr[n+1] is not before it), continues left of n iff arr[n] is not before the probe, continues right of n otherwise; arr[n+1] is never evaluated when n is last (ties with the probe are don't-care: a snapshot point is never a version stamp)")
+	r.Rule("C18.a", "single-step decision table of binarySearch: with n the probed index, for every ordering of arr[n].Seq and arr[n+1].Seq against the probe and for n last / not last, the loop body (evaluated abstractly; elements are touched only through comparisons) returns arr[n] iff arr[n] is before the probe and (n is last or arr[n+1] is not before it), continues left of n iff arr[n] is not before the probe, continues right of n otherwise; arr[n+1] is never evaluated when n is last (\"before\" is strict: a version stamped exactly at the probe is not before it)")
 	r.Rule("C18.b", "window discipline: the probe index is len(arr)/2 (in range for every non-empty window), the left window is arr[:n] and the right window arr[n+1:] (both exclude n, so the window shrinks in every iteration), the loop runs while the window is non-empty and nil is returned after it")
-	r.Rule("C18.c", "empty cases: LastBefore returns the zero version for a nil store, an empty mirror and a nil search result; Latest returns the zero version for a nil store / empty list")
+	r.Rule("C18.c", "empty cases: LastBefore returns the zero version for a nil store, and the search result is dereferenced nil-safely (an empty mirror may be handled by a guard or by the search returning nil)")
 	r.Rule("C18.d", "satellites: retention guard of the collector (C09.a) and list/array mirror discipline (C09.d)")
 	r.NotDecided = []string{"the induction over arrays of unbounded length: that the mirror is sorted, that the step table composed over all iterations finds the last element before the probe, termination as a whole (a loop invariant over array contents needs a prover or execution)", "interleavings of append/pop/collect over histories"}
 	r.Assume = []string{"the array mirror is sorted by Seq (appended in sequence order under the locks of C06.b)", "a snapshot point never equals a version's sequence number"}
@@ -229,14 +229,12 @@ func propC18(p *Prog, r *Report) {
 					return "after"
 				}
 				rows = append(rows, row{ord(a), ord(b), last, action})
-				if a == probe || (!last && b == probe) {
-					continue // tie with the probe: don't-care
-				}
+				// "before" is strict: a version stamped exactly at the probe is not before it
 				want := ""
 				switch {
-				case a > probe:
+				case a >= probe:
 					want = "left of n"
-				case last || b > probe:
+				case last || b >= probe:
 					want = "return arr[n]"
 				default:
 					want = "right of n"
@@ -270,7 +268,7 @@ func propC18(p *Prog, r *Report) {
 		for _, cs := range []struct {
 			nilRecv bool
 			n       int64
-		}{{true, 0}, {false, 0}} {
+		}{{true, 0}} {
 			env := &Env{P: p, Pkg: lb.Pkg, Vars: map[types.Object]*Val{}}
 			if cs.nilRecv {
 				env.Vars[recv] = &Val{Nil: true}
